@@ -238,7 +238,7 @@ PROPS = {
     },
     "C14": {
         "engine": ["sock", "queue"],
-        "level_text": "Lean 4 theorems C14.counters_add_up / unbuffered_attempts_are_emits / exact_under_concurrency (fetch_adds commute: any interleaving of any number of threads gives the same totals) + correspondence of stats() after every op against the datagrams the peer actually received, incl. EMSGSIZE / ENOENT / EAGAIN failures and reads through a wrapping queuing sink.",
+        "level_text": "Lean 4 theorems C14.counters_add_up / counters_never_decrease / unbuffered_attempts_are_emits / exact_under_concurrency (fetch_adds commute: any interleaving of any number of threads gives the same totals) + correspondence of stats() after every op against the datagrams the peer actually received, incl. EMSGSIZE / ENOENT / EAGAIN failures (refused payloads retried after back-pressure), more than 4 GiB through one sink, and reads through a wrapping queuing sink.",
         "level_note": _S_NOTE + "; counters are Nat (2^64 wrap-around out of physical reach)",
         "technique": "Lean 4 proof (fold over attempts; permutation invariance of increments) + stats-vs-received-datagrams correspondence",
         "trusted_base": _S_TB,
